@@ -1,3 +1,4 @@
 import RpyProofs.Bridge
 import RpyProofs.Props.C01
 import RpyProofs.Props.C17
+import RpyProofs.Props.C20
